@@ -1017,7 +1017,206 @@ def prefixless_scenarios(ctx, out):
     out.coverage['prefixless_package_scenarios'] = n
 
 
-SCENARIOS = {'metaref': metaref_scenarios, 'export': export_scenarios, 'prefixless': prefixless_scenarios}
+def _twores_mm():
+    from pyecore.ecore import EPackage, EClass, EAttribute, EReference, EString
+    pk = EPackage('lib2', nsURI='http://verif/c16/lib2', nsPrefix='lib2')
+    Catalogue, Storage, Book, Shelf = EClass('Catalogue'), EClass('Storage'), EClass('Book'), EClass('Shelf')
+    Book.eStructuralFeatures.append(EAttribute('name', EString))
+    Shelf.eStructuralFeatures.append(EAttribute('name', EString))
+    Catalogue.eStructuralFeatures.append(EReference('books', Book, upper=-1, containment=True))
+    Storage.eStructuralFeatures.append(EReference('shelves', Shelf, upper=-1, containment=True))
+    shelf = EReference('shelf', Shelf)                               # single <-> many, across the two files
+    books = EReference('books', Book, upper=-1, eOpposite=shelf)
+    star = EReference('star', Book)                                  # single <-> single
+    starOf = EReference('starOf', Shelf, eOpposite=star)
+    Book.eStructuralFeatures.extend([shelf, starOf, EReference('near', Shelf),           # single, no opposite
+                                     EReference('alts', Shelf, upper=-1)])               # many, no opposite
+    Shelf.eStructuralFeatures.extend([books, star])
+    pk.eClassifiers.extend([Catalogue, Storage, Book, Shelf])
+    return {'pk': pk, 'Catalogue': Catalogue, 'Storage': Storage, 'Book': Book, 'Shelf': Shelf}
+
+
+def _twores_objects(rset):
+    """Every object of every resource the resource set holds now (containment only; proxies are not followed)."""
+    from pyecore.ecore import EProxy
+    out, seen = [], set()
+    for r in list(rset.resources.values()):
+        stack = list(r.contents)
+        while stack:
+            o = stack.pop()
+            if type(o) is EProxy or id(o) in seen:
+                continue
+            seen.add(id(o))
+            out.append(o)
+            for f in o.eClass.eAllReferences():
+                if f.containment:
+                    v = o.eGet(f)
+                    stack.extend(list(v) if f.many else ([v] if v is not None else []))
+    return out
+
+
+def _twores_state(objs):
+    """Per object and feature: attribute values; for references the RAW values held (identity and order: a proxy
+    object stays that proxy object, whether a save resolved it or not), the container, the resource."""
+    st = []
+    for o in objs:
+        feats = []
+        for f in sorted(o.eClass.eAllStructuralFeatures(), key=lambda f: f.name):
+            v = o.eGet(f)
+            if f.is_reference:
+                feats.append((f.name, [id(x) for x in v] if f.many else id(v) if v is not None else None))
+            else:
+                feats.append((f.name, repr(list(v)) if f.many else repr(v)))
+        st.append((o.eClass.name, feats, id(o.eContainer()) if o.eContainer() is not None else None, id(o.eResource)))
+    return st
+
+
+def twores_scenarios(ctx, out):
+    """Two resources in two files (same or different directories) with cross references single/many, with and
+    without opposite.  States: built in memory; loaded (one file asked for, the other reached through proxies);
+    loaded and partly resolved; loaded and edited.  Then a sequence of plain saves and exports (other directory,
+    same directory) of the first resource with NO edit in between: no save sends a notification or changes a
+    value, the identity or the order of what a feature holds; all saves to one target write the same bytes, the
+    bytes a twin writes that only ever did that one save."""
+    common.use_repo()
+    from pyecore.resources import ResourceSet, URI
+    from pyecore.resources.json import JsonResource
+    from pyecore.notification import EObserver
+    rng = common.rng_for(ctx.seed, 'C16:twores')
+    scratch = os.path.join(common.BUILD, 'scratch')
+    os.makedirs(scratch, exist_ok=True)
+    n_saves = 0
+
+    def new_rset(mm):
+        rs = ResourceSet()
+        rs.resource_factory['json'] = lambda uri, **kw: JsonResource(uri, **kw)
+        rs.metamodel_registry[mm['pk'].nsURI] = mm['pk']
+        return rs
+
+    def prepare(hist, d, mm):
+        """-> (rset, resource to save) in the state the history describes; files live under d."""
+        fmt = hist['format']
+        f_cat = os.path.join(d, 'a', 'catalogue.' + fmt)
+        f_store = os.path.join(d, 'a' if hist['same_dir'] else 'b', 'store.' + fmt)
+        for sub in ('a', 'b', 'x'):
+            os.makedirs(os.path.join(d, sub), exist_ok=True)
+        rs = new_rset(mm)
+        r_cat = rs.create_resource(URI(f_cat), use_uuid=hist['use_uuid'])
+        r_store = rs.create_resource(URI(f_store), use_uuid=hist['use_uuid'])
+        cat, store = mm['Catalogue'](), mm['Storage']()
+        r_cat.append(cat)
+        r_store.append(store)
+        shelves = [mm['Shelf'](name=f's{i}') for i in range(hist['n_shelves'])]
+        store.shelves.extend(shelves)
+        for i, bk in enumerate(hist['books']):
+            b = mm['Book'](name=f'a{i}')
+            cat.books.append(b)
+            if bk['shelf'] is not None:
+                b.shelf = shelves[bk['shelf']]
+            if bk['near'] is not None:
+                b.near = shelves[bk['near']]
+            for j in bk['alts']:
+                b.alts.append(shelves[j])
+            if bk['star'] is not None and shelves[bk['star']].star is None:
+                b.starOf = shelves[bk['star']]
+        if hist['state'] == 'memory':
+            return rs, r_cat
+        r_store.save()
+        r_cat.save()
+        r_store.save()
+        rs = new_rset(mm)
+        r_cat = rs.get_resource(URI(f_cat))
+        cat = r_cat.contents[0]
+        if hist['state'] in ('partly', 'edited'):
+            for b in list(cat.books)[::2]:
+                for fn in ('shelf', 'near'):
+                    v = b.eGet(fn)
+                    if v is not None:
+                        v.name          # following the reference resolves the proxy
+        if hist['state'] == 'edited' and len(cat.books):
+            some = next((b.eGet(fn) for b in cat.books for fn in ('shelf', 'near') if b.eGet(fn) is not None), None)
+            nb = mm['Book'](name='new')
+            cat.books.append(nb)
+            if some is not None:
+                nb.shelf = some
+        return rs, r_cat
+
+    def target_of(op, d, fmt):
+        return {'plain': None, 'other-dir': os.path.join(d, 'x', 'export.' + fmt),
+                'same-dir': os.path.join(d, 'a', 'export.' + fmt)}[op]
+
+    for k in range(12 if ctx.tier == 'quick' else 80):
+        nsh = rng.randint(1, 3)
+        hist = {'format': rng.choice(['xmi', 'xmi', 'json']), 'use_uuid': rng.random() < 0.2,
+                'same_dir': rng.random() < 0.4, 'state': rng.choice(['memory', 'loaded', 'partly', 'edited']),
+                'n_shelves': nsh,
+                'books': [{'shelf': rng.choice([None] + list(range(nsh))), 'near': rng.choice([None] + list(range(nsh))),
+                           'alts': [rng.randrange(nsh) for _ in range(rng.choice([0, 0, 1, 2]))],
+                           'star': rng.choice([None, None] + list(range(nsh)))} for _ in range(rng.randint(1, 4))]}
+        ops = [rng.choice(['plain', 'other-dir', 'same-dir']) for _ in range(rng.randint(2, 4))]
+        hist['ops'] = ops + sorted(set(ops))        # every target is written at least twice
+        fmt = hist['format']
+        case = {'scenario': 'twores', 'seed': ctx.seed, 'tier': ctx.tier, 'history': hist}
+        with tempfile.TemporaryDirectory(dir=scratch) as d:
+            try:
+                rs, res = prepare(hist, d, _twores_mm())
+            except Exception:       # noqa: building / loading the two documents is not C16's business
+                continue
+            written = {}
+            for oi, op in enumerate(hist['ops']):
+                tgt = target_of(op, d, fmt)
+                objs = _twores_objects(rs)
+                count = [0]
+                observers = [EObserver(o, notifyChanged=lambda n, c=count: c.__setitem__(0, c[0] + 1)) for o in objs]
+                st0 = _twores_state(objs)
+                try:
+                    res.save() if tgt is None else res.save(output=URI(tgt))
+                    err = None
+                except Exception as e:      # noqa
+                    err = type(e).__name__
+                st1 = _twores_state(objs)
+                for ob, o in zip(observers, objs):
+                    if ob in o.listeners:
+                        o.listeners.remove(ob)
+                n_saves += 1
+                if err:
+                    break                   # a model pyecore cannot save: the fault enumeration deals with those
+                if count[0]:
+                    out.fail(sig('purity', fmt, 'two-resources'), f'save #{oi} ({op}, state {hist["state"]}) sent '
+                             f'{count[0]} notification(s)', case)
+                if st0 != st1:
+                    x = next((a, b) for a, b in zip(st0, st1) if a != b)
+                    fx = next(((p, q) for p, q in zip(x[0][1], x[1][1]) if p != q), ('container/resource', ''))
+                    out.fail(sig('purity', fmt, 'two-resources'), f'save #{oi} ({op}, state {hist["state"]}) changed '
+                             f'what {x[0][0]}.{fx[0][0]} holds (value, identity or order)', case)
+                data = read(tgt or res.uri.plain)
+                key = tgt or 'own'
+                if key in written and written[key][1] != data:
+                    out.fail(sig('idempotence', fmt, 'two-resources'), f'save #{oi} ({op}) wrote other bytes than save '
+                             f'#{written[key][0]} to the same target, the model unchanged in between (sequence '
+                             f'{hist["ops"][:oi + 1]}): ' + _firstdiff(written[key][1], data), case)
+                written.setdefault(key, (oi, data))
+            # twin: the same state, ONE save to that target
+            if hist['use_uuid'] or err:
+                continue
+            for key, (oi, data) in written.items():
+                with tempfile.TemporaryDirectory(dir=scratch) as d2:
+                    try:
+                        rs2, res2 = prepare(hist, d2, _twores_mm())
+                        tgt2 = None if key == 'own' else key.replace(d, d2)
+                        res2.save() if tgt2 is None else res2.save(output=URI(tgt2))
+                        twin = read(tgt2 or res2.uri.plain)
+                    except Exception:       # noqa
+                        continue
+                    if twin != data:
+                        out.fail(sig('idempotence', fmt, 'two-resources'), f'the first save to {hist["ops"][oi]} (save '
+                                 f'#{oi} of {hist["ops"]}) wrote other bytes than the same model saved there at once: '
+                                 + _firstdiff(twin, data), case)
+    out.coverage['two_resource_scenarios_saves'] = n_saves
+
+
+SCENARIOS = {'metaref': metaref_scenarios, 'export': export_scenarios, 'prefixless': prefixless_scenarios,
+             'twores': twores_scenarios}
 
 
 def option_grid(fmt, thorough):
@@ -1101,6 +1300,7 @@ def run(ctx, out):
     metaref_scenarios(ctx, out)
     export_scenarios(ctx, out)
     prefixless_scenarios(ctx, out)
+    twores_scenarios(ctx, out)
     out.coverage.update({
         'evaluations': stats['saves'],
         'distinct_nontrivial': len(stats['distinct']),
